@@ -1052,10 +1052,13 @@ pub fn swarm_for(profile: &str, rng: &mut Rng, thorough: bool) -> Swarm {
             sw.w.begin = 3;
             sw.w.commit = 3;
             sw.w.rollback = 1;
-            if rng.chance(1, 4) {
+            if rng.chance(1, 6) {
+                // more than 22 tables with their primary-key indexes: more than 64 open files
                 sw.max_tables = 24;
-                sw.w.create_table = 40;
-                sw.n_ops += 40;
+                sw.w.create_table = 60;
+                sw.n_ops = 30 + rng.range(8, 20) as usize;
+                sw.p_long = 0;
+                sw.max_rows_per_insert = 3;
             }
         }
         "bulk" => {
